@@ -166,6 +166,9 @@ func c09Tokenizer(ci int, order int, k c09Cfg, fresh bool) *csv.CsvTokenizer {
 		t.SetQuoteSymbols(dialect[len(k.seps) : len(k.seps)+len(k.quotes)])
 		t.SetFieldSeparators(dialect[:len(k.seps)])
 	case 2:
+		// the line ending used for writing is set first (one of LF, CR, CR LF): reading takes each of the
+		// four line endings as one end-of-line token whatever it is
+		t.SetEndOfLine([]string{"\n", "\r", "\r\n"}[ci%3])
 		t.SetQuoteSymbols(k.quotes)
 		t.SetFieldSeparators(k.seps)
 		t.SetFieldSeparators(k.seps) // the same set applied again
